@@ -89,6 +89,28 @@ def run(ck):
             ck.violation(f'{kn} (p={p}, q={q}): categorical fast path gives {Kf[a, b]!r}, dense evaluation on the one-hot rows gives {Kd[a, b]!r} (max dev {dev:.3g}) on {desc}',
                          dict(desc, x=X[a].tolist(), z=Z[b].tolist(), mat=None if mat is None else np.asarray(mat).tolist(), fast=float(Kf[a, b]), dense=float(Kd[a, b])),
                          key=json.dumps(dict(site='fast-vs-dense', kernel=kn, p=p, q=q)))
+        # the SAME configured kernel object evaluated again on other rows that live at the same address: a numpy staging buffer refilled in
+        # place and wrapped again (same data pointer, same version counter, same shape), then a torch in-place update — the fast path must
+        # follow the contents, not the storage
+        bufX, bufZ = X.copy(), Z.copy()
+        try:
+            with xr.quiet():
+                fast.get_kernel_matrix(torch.from_numpy(bufX), torch.from_numpy(bufZ), mt)
+                X2, Z2 = rows(nrows), rows(len(Z))
+                bufX[:] = X2; bufZ[:] = Z2
+                Kf2 = fast.get_kernel_matrix(torch.from_numpy(bufX), torch.from_numpy(bufZ), mt).double().numpy()
+                Kd2 = dense.get_kernel_matrix(T(X2), T(Z2), mt).double().numpy()
+                tX = torch.from_numpy(bufX); X3 = rows(nrows); tX.copy_(T(X3))
+                Kf3 = fast.get_kernel_matrix(tX, torch.from_numpy(bufZ), mt).double().numpy()
+                Kd3 = dense.get_kernel_matrix(T(X3), T(Z2), mt).double().numpy()
+            ck.count('same kernel object, refilled buffers')
+            for nm, A, B in (('a numpy buffer refilled in place', Kf2, Kd2), ('a tensor updated in place', Kf3, Kd3)):
+                dv = float(np.max(np.abs(A - B)))
+                if dv > 1e-9:
+                    ck.violation(f'{kn} (p={p}, q={q}): second evaluation of the same kernel object on {nm}: fast path differs from dense evaluation by {dv:.3g} on {desc}',
+                                 dict(desc, dev=dv, how=nm), key=json.dumps(dict(site='fast-vs-dense-reuse', kernel=kn)))
+        except Exception as e:
+            ck.violation(f'categorical path raised {e!r} on a second evaluation on {desc}', dict(desc, error=repr(e)), key=json.dumps(dict(site='raise', kernel=kn)))
         # dense vs documented closed form (independent)
         par = dict(L=L, q=q)
         if kn == 'lpq':
